@@ -602,6 +602,54 @@ func checksum(data []byte, seed uint32) uint32 {
 	}
 	return ^crc
 }
+func shift10(x int, n int) int {
+	a, b, c, d, e, f, g, h, i, j := 0, 0, 0, 0, 0, 0, 0, 0, 0, 0
+	for k := 0; k < n; k++ {
+		j = i + 1
+		i = h + 1
+		h = g + 1
+		g = f + 1
+		f = e + 1
+		e = d + 1
+		d = c + 1
+		c = b + 1
+		b = a + 1
+		a = x + 1
+	}
+	return j
+}
+func shift10par(x int, n int) int {
+	a, b, c, d, e, f, g, h, i, j := 0, 0, 0, 0, 0, 0, 0, 0, 0, 0
+	for k := 0; k < n; k++ {
+		j, i, h, g, f, e, d, c, b, a = i, h, g, f, e, d, c, b, a, x
+	}
+	return j
+}
+func shiftNested(x int, n int) int {
+	a, b, c, d, e, f := 0, 0, 0, 0, 0, 0
+	for k := 0; k < n; k++ {
+		for l := 0; l < k; l++ {
+			f = e ^ 1
+			e = d ^ 1
+			d = c ^ 1
+		}
+		c = b ^ 1
+		b = a ^ 1
+		a = x ^ 1
+	}
+	return f
+}
+func swapLoop(x, y int, n int) int {
+	p, q, r := x, 0, 0
+	for k := 0; k < n; k++ {
+		if k%2 == 0 {
+			p, q = q, p
+		} else {
+			q, r = r, q
+		}
+	}
+	return r + y
+}
 func closureBind(x int) func() int { y := ^x; return func() int { return y } }
 func tuple(x int) (int, int)       { return x, -x }
 func useTuple(x int) int {
@@ -614,7 +662,7 @@ func main() {
 	v := len(rt.Source(1))
 	p := P{a: v, b: v, s: []int{v}, m: map[string]int{"k": v}}
 	r := neg(v) + compl(v) + andnot(v, 3) + shifts(v, 2) + arith(v, 2) + field(p) + fieldptr(&p) + index([3]int{v}, 0) + sliceidx(p.s) +
-		lookup(p.m, "k") + unbox(box(v)) + mins(v, 1, 2) + cond(v) + phi(v, 1, not(cmp(v, 2))) + selfFeed(v, 2) + fix(v) + useTuple(v) + closureBind(v)()
+		lookup(p.m, "k") + unbox(box(v)) + mins(v, 1, 2) + cond(v) + phi(v, 1, not(cmp(v, 2))) + selfFeed(v, 2) + fix(v) + useTuple(v) + closureBind(v)() + shift10(v, 12) + shift10par(v, 12) + shiftNested(v, 9) + swapLoop(v, 1, 5)
 	a, _ := lookup2(p.m, "k")
 	b, _ := unbox2(v)
 	rt.Sink(1, []any{r, a, b, fl(float64(v)), cx(float64(v)), conv(v), conv2(int32(v)), str("a", rt.Source(2)), slicing([]int{v, v, v}), arrptr([]int{v, v}), app(nil, v), checksum([]byte(rt.Source(3)), uint32(v))})
